@@ -4,7 +4,13 @@
 // This might be optimised in the future.
 package bytecode
 
-import "fmt"
+import (
+	"errors"
+	"fmt"
+)
+
+// ErrRange is the panic value of EncodeSrc when an operand does not fit the instruction.
+var ErrRange = errors.New("program too large, instruction operand out of range")
 
 // Type is a fixed size 64 bit instruction.
 type Type uint64
@@ -154,8 +160,9 @@ func New(op OpCode) Type {
 // srcAddr specifies the source address, or immediate value for instruction
 // encoded integers.
 func EncodeSrc(srcsel int, src uint64, srcAddr int) Type {
-	if srcAddr <= -(1<<SrcChanWidth) || srcAddr >= (1<<SrcChanWidth) {
-		panic("srcAddr out of range")
+	// operands are decoded as signed values, see convImm
+	if srcAddr < -(1<<(SrcChanWidth-1)) || srcAddr >= (1<<(SrcChanWidth-1)) {
+		panic(ErrRange)
 	}
 	addr := uint64(srcAddr)
 	switch srcsel {
